@@ -3,6 +3,7 @@
 import copy
 import datetime
 import itertools
+import math
 import re
 
 from ..common import canon, has_host, load_impl
@@ -29,14 +30,16 @@ RULE = ('matrix: every (operator, left, right) over the 14 binary operators and 
         'every built-in; libshadow: two-step history on one globals object - bind the aliased library NAME to a script function / host '
         'function / value / null, then the built-in must still give the stock library function\'s result; keywords: expressions over null/true/false '
         '(alone, as operands, call arguments, if() condition and branches) evaluated while a variable of the keyword\'s name is bound '
-        '(globals / locals / both / script assignment / function parameter) - the keyword is the constant regardless. Non-trivial: a matrix cell whose result is not null; a tree where some valuation leaves a leaf '
+        '(globals / locals / both / script assignment / function parameter) - the keyword is the constant regardless; negzero: zero-valued '
+        'expressions under sign-sensitive consumers - results distinguish -0.0 from 0.0 (IEEE: -(0.0) = -0.0, 0 * -1 = -0.0, 0 - 0 = 0.0). Non-trivial: a matrix cell whose result is not null; a tree where some valuation leaves a leaf '
         'unevaluated; an order tree with at least two leaves; an alias call that returns a non-null value; a shadowed name whose built-in accepts the argument 1; a libshadow case whose user binding is callable and would '
         'give a different result.')
 ASSUMPTIONS = [
-    'appendix A.2 operator table; numbers are doubles and exclude booleans; the sign of a zero result is not compared',
+    'appendix A.2 operator table; numbers are doubles and exclude booleans; the sign of a zero result IS compared (IEEE), except that a '
+    'zero held in an integer carrier (host int operands, e.g. int 0 * int -1, -(int 0)) has no sign: those results are UNSPECIFIED',
     'UNSPECIFIED (skipped, counted): division/modulo by zero, modulo with operands of different sign, non-finite or non-real '
     'results, integer results beyond 2**53, datetime shifts by a fraction of a millisecond or outside year 1..9999, '
-    'sub-millisecond datetime differences, the text of negative zero',
+    'sub-millisecond datetime differences',
     'process time zone is UTC (fixed by the runner); a date and the datetime of its midnight are the same value',
     'in an UNSPECIFIED cell the value is not compared but must still be a BareScript value (no host object such as complex)',
     'datetime text: milliseconds truncated; for 0 < microsecond < 1000 an all-zero millisecond field may be printed (.000) or omitted',
@@ -57,7 +60,7 @@ _CACHE = {}
 
 
 def obs(value, tags=None):
-    """Language-level observation of a value: 1 == 1.0, true != 1, the sign of zero and date-vs-midnight are dropped,
+    """Language-level observation of a value: 1 == 1.0, true != 1, -0.0 differs from 0.0 (an integer 0 is +0), date-vs-midnight is dropped,
     functions are identified by harness tag (pool label) or identity."""
     if value is None or isinstance(value, (bool, str)):
         return value
@@ -68,6 +71,8 @@ def obs(value, tags=None):
             return ('n', 'nan')
         if value in (float('inf'), float('-inf')):
             return ('n', repr(value))
+        if value == 0:
+            return ('n', 0, '-0') if math.copysign(1.0, value) < 0 else ('n', 0)      # the sign of zero is observable
         if value == int(value):
             return ('n', int(value))
         return ('n', value)
@@ -737,6 +742,66 @@ def fam_keywords(arg):
     return acc.result()
 
 
+# (f) negative zero: zero-valued sub-expressions (number literals in text are doubles) under sign-sensitive consumers
+
+ZERO_EXPRS = ['0', '-0', '(1 - 1)', '(0 * -1)', '(-1 * 0)', '(0 * 1)', '-(1 - 1)', '(0 / -1)', '(-0 + 0)', '(-0 - 0)', '(-0 + -0)',
+              '-(-0)', '(-0 * -0)', '(0 ** 3)', '(-0 ** 3)', 'pz', 'nz', '-pz', '-nz']
+ZERO_CONSUMERS = ['K', "'' + K", "K + ''", 'text(K)', '-K', 'K * 1', '1 * K', 'K * -1', 'K / 1', 'K / -2', 'K + 0', 'K - 0', '0 - K', 'K + K',
+                  'K * K', 'atan2(K, -1)', 'atan2(K, 1)', 'atan2(-1, K)', 'K == 0', 'K < 0', 'if(K, 1, 2)', 'K ** 3', 'K % -1', 'K % 1',
+                  'hh(K)', 'K && 1', 'K || -0']
+ZERO_VARS = {'pz': 0.0, 'nz': -0.0}
+
+
+def _ref_atan2(vals):
+    if len(vals) != 2 or not all(rv.is_number(v) for v in vals):
+        return rx.UNSPECIFIED
+    return math.atan2(float(vals[0]), float(vals[1]))      # IEEE: atan2(-0, -1) = -pi, atan2(+0, -1) = +pi
+
+
+def check_negzero(case, acc):
+    bs = load_impl()
+    text = ZERO_CONSUMERS[case['consumer']].replace('K', ZERO_EXPRS[case['zero']])
+    case = dict(case, text=text)
+    # reference: own parser, own evaluator; text() is the documented number-to-text rule, atan2 the IEEE function
+    model = rx.parse(text)
+    want = rx.evaluate(model, dict(ZERO_VARS), {'text': lambda vals: rv.string(vals[0]) if len(vals) == 1 else rx.UNSPECIFIED,
+                                                'atan2': _ref_atan2, 'hh': list})
+    acc.states += 1
+    script_text = text.replace('text(', 'stringNew(').replace('atan2(', 'mathAtan2(')
+    runs = [
+        ('parse_expression + evaluate_expression', guarded(lambda: bs.evaluate_expression(bs.parse_expression(text), {'globals': dict(ZERO_VARS, hh=host_hh)}, None, True))),
+        ('script "return <expr>"', guarded(lambda: bs.execute_script(bs.parse_script('return ' + script_text + '\n'), {'globals': dict(ZERO_VARS, hh=host_hh)}))),
+    ]
+    if want is rx.UNSPECIFIED:
+        acc.unspecified += 1
+        acc.evals += len(runs)
+        return ('unspecified',)
+    want_obs = ('value', obs(want))
+    for how, got in runs:
+        acc.evals += 1
+        acc.transitions += 1
+        acc.traces += 1
+        got_obs = ('value', obs(got[1])) if got[0] == 'value' else got
+        if got_obs != want_obs:
+            acc.violation(dict(case, path=how), want_obs, got_obs, f'{how}: {text} differs from IEEE arithmetic / the number-to-text rule (sign of zero)')
+            break
+    return want_obs
+
+
+def fam_negzero(arg):
+    acc = Acc('negzero')
+    for zero in arg:
+        for consumer in range(len(ZERO_CONSUMERS)):
+            acc.cases += 1
+            out = check_negzero({'zero': zero, 'consumer': consumer}, acc)
+            acc.outcome(out)
+            flat = repr(out)
+            if "'-0'" in flat or '-0' in flat or '3.14' in flat:
+                acc.nontrivial += 1        # the sign of the zero is visible in the expected result
+        acc.sample({'expression': ZERO_CONSUMERS[1].replace('K', ZERO_EXPRS[zero])})
+    return acc.result()
+
+
 # ---------------------------------------------------------------------------------------------------------------------
 
 
@@ -786,11 +851,15 @@ def families(tier):
                f'{len(KEYWORD_TEMPLATES)} expression templates x 3 keywords x {len(KEYWORD_BINDINGS)} bound values x {len(KEYWORD_SCOPES)} scopes in which a '
                'variable of the keyword\'s name is bound',
                expected=len(KEYWORD_TEMPLATES) * len(KEYWORDS) * len(KEYWORD_BINDINGS) * len(KEYWORD_SCOPES)),
+        Family('negzero', fam_negzero, split(list(range(len(ZERO_EXPRS))), 8),
+               f'{len(ZERO_EXPRS)} zero-valued expressions (literals, 1 - 1, 0 * -1, -(...), variables holding 0.0 / -0.0) x {len(ZERO_CONSUMERS)} '
+               'sign-sensitive consumers (text, concatenation, unary minus, * / + - % **, atan2, comparisons), as expression text and as script',
+               expected=len(ZERO_EXPRS) * len(ZERO_CONSUMERS)),
         Family('shadow', fam_shadow, split(names, 2), 'every expression built-in name bound in globals / in locals', expected=2 * len(names)),
     ]
 
 
-_CHECKS = {'matrix': check_matrix, 'effects': check_effects, 'order': check_effects, 'callee': check_effects, 'alias': check_alias, 'shadow': check_shadow, 'libshadow': check_libshadow, 'keywords': check_keywords}
+_CHECKS = {'matrix': check_matrix, 'effects': check_effects, 'order': check_effects, 'callee': check_effects, 'alias': check_alias, 'shadow': check_shadow, 'libshadow': check_libshadow, 'keywords': check_keywords, 'negzero': check_negzero}
 
 
 def replay(family, case):
